@@ -464,10 +464,19 @@ Definition unimplemented (r : root) : bool :=
    3 reported state is not the image of the device state (other than 1, 2)
    1 empty state reported after a transport error although the device state is known to differ
    2 empty state reported, no transport error: a request was rejected for its stale source state
-   6 RECOVER / GO_ERROR on a FairMQ task: success reported, nothing requested from the device *)
+   6 RECOVER / GO_ERROR on a FairMQ task: success reported, nothing requested from the device
+   7 (raw reply) accepted although not ok / not executor-triggered / other event / other state
+   8 (raw reply) the state passed on is not the state of the reply *)
+Definition SPEC_TRIGGER_EXECUTOR : N := 0.                     (* occ.proto: EXECUTOR = 0 *)
 Definition mon16 (c : c16_case) : N :=
   match c with
-  | CReply _ _ _ _ => 0
+  | CReply _ RpcErr _ _ => 0
+  | CReply ei (Reply trg st ev ok) f e =>
+    let acceptable := ok && N.eqb trg SPEC_TRIGGER_EXECUTOR && str_eqb ev (ei_evt ei)
+                      && str_eqb st (ei_dst ei) in
+    if negb e && negb acceptable then 7
+    else if negb (str_eqb f st) then 8
+    else 0
   | CRun r _ ob =>
     if negb (in_domainb r) then 0
     else if negb (success_ok r ob) then (if unimplemented r then 6 else 4)
